@@ -1,7 +1,7 @@
 (* EXTRACT-Z: c17 run_c17 *)
 (* Executable entry point of the C17 correspondence: wire case -> wire result.
    first integer = machine: 1 IO state (Maths/IOState.v), 2 Geometry, 3 Sensors, 4 Mesh (Geom/*State.v). *)
-From OM Require Import Base.Lists Base.Wire Maths.IOState Maths.LinOpState Geom.GeomState Geom.SensorsState Geom.MeshState.
+From OM Require Import Base.Lists Base.Wire Maths.IOState Maths.LinOpState Maths.ComputeState Gen.GenC17 Geom.GeomState Geom.SensorsState Geom.MeshState.
 Local Open Scope Z_scope.
 
 Definition getFmt : dec fmt :=
@@ -61,7 +61,7 @@ Definition getGdesc : dec gdesc :=
   do inv <- getVec; do ni <- getVec; do pa <- getN; do ti <- getN; do cb <- getN; do pr <- getN; do ne <- getBool; do hm <- getZ;
   ret {| d_status := st; d_verts := vs; d_nmeshes := nm; d_ndomains := nd; d_finalized := fin; d_marks := mk; d_inv_add := inv;
          d_noniso := ni; d_parts := pa; d_tri_idx := ti; d_cbt := cb; d_pairs := pr; d_nested := ne; d_headmat := hm |}.
-Definition getGop : dec gop := do o <- getN; do i <- getN; match o with O => ret (GLoad i) | 1%nat => ret GHeadMat | _ => ret GOther end.
+Definition getGop : dec gop := do o <- getN; do i <- getN; match o with O => ret (GLoad i) | 1%nat => ret GHeadMat | 2%nat => ret GOther | _ => ret GFinalize end.
 Definition run_geom (w : wire) : wire :=
   run_dec (do fx <- getBool; do W <- getList getGdesc; do ops <- getList getGop; ret (fx, W, ops)) w
     (fun '(fx, W, ops) => lenpref (g_trace fx W ops gst0)).
@@ -93,6 +93,13 @@ Definition run_linop (w : wire) : wire :=
   run_dec (do fx <- getBool; do sp <- getBool; do W <- getList getLdesc; do ops <- getList getN; ret (fx, sp, W, ops)) w
     (fun '(fx, sp, W, ops) => lenpref (l_trace fx sp W ops lst0)).
 
+(* ---- machine 6: computations on shared objects; the catalogue (reads, declared writes) is the generated one ---- *)
+Definition run_compute (w : wire) : wire :=
+  run_dec (do init <- getVec; do fr <- getVec; do ops <- getList getN; ret (init, fr, ops)) w
+    (fun '(init, fr, ops) =>
+       let W := map (fun p => {| c_reads := fst (fst p); c_writes := snd (fst p); c_fresh := snd p |}) (combine code_compute_catalogue fr) in
+       flat_map (fun r => [fst r; snd r]) (c_trace init W ops init)).
+
 Definition run_c17 (w : wire) : wire :=
   match w with
   | 1 :: w' => run_io w'
@@ -100,5 +107,6 @@ Definition run_c17 (w : wire) : wire :=
   | 3 :: w' => run_sens w'
   | 4 :: w' => run_mesh w'
   | 5 :: w' => run_linop w'
+  | 6 :: w' => run_compute w'
   | _ => [-1]
   end.
